@@ -1,12 +1,35 @@
 package d2format
 
 import (
+	"strings"
+
 	"oss.terrastruct.com/d2/d2ast"
 	"oss.terrastruct.com/d2/d2parser"
 	nd "oss.terrastruct.com/d2/internal/verifnd"
 )
 
+// c05Keyword: s spells a reserved keyword but not in lower case.
+func c05KeywordCase(s string) bool {
+	l := strings.ToLower(s)
+	_, ok := d2ast.ReservedKeywords[l]
+	return ok && l != s
+}
+
 func c05CheckValue(s string) {
+	// Known findings (see /verif/known_findings.json): each assumes away exactly
+	// the input class of one recorded defect, and only while its witness still fails.
+	if nd.Known("C05-value-keyword-lowercased") {
+		nd.Assume(!c05KeywordCase(s))
+	}
+	if nd.Known("C05-value-null-case") {
+		nd.Assume(!(strings.EqualFold(s, "null") && s != "null"))
+	}
+	if nd.Known("C05-value-boolean") {
+		nd.Assume(!strings.EqualFold(s, "true") && !strings.EqualFold(s, "false"))
+	}
+	if nd.Known("C05-value-suspend-case") {
+		nd.Assume(!(strings.EqualFold(s, "suspend") && s != "suspend") && !(strings.EqualFold(s, "unsuspend") && s != "unsuspend"))
+	}
 	node := d2ast.RawString(s, false)
 	txt := Format(node)
 	v, err := d2parser.ParseValue(txt)
@@ -32,7 +55,20 @@ func VerifC05Value() {
 	c05CheckValue(s)
 }
 
+// VerifC05ValueWord: the same for every letter-case variant of the words the
+// parser treats specially (null, true, false, suspend, unsuspend) and of
+// reserved keywords, which are longer than the all-bytes bound reaches.
+func VerifC05ValueWord() {
+	words := []string{"null", "true", "false", "suspend", "unsuspend", "label", "shape", "near", "3d"}
+	w := words[nd.Choose("word", 0, len(words)-1)]
+	s := nd.CaseMask("case", w)
+	c05CheckValue(s)
+}
+
 func c05CheckKey(s string) {
+	if nd.Known("C05-key-keyword-lowercased") {
+		nd.Assume(!c05KeywordCase(s))
+	}
 	node := d2ast.RawString(s, true)
 	txt := Format(&d2ast.KeyPath{Path: []*d2ast.StringBox{d2ast.MakeValueBox(node).StringBox()}})
 	k, err := d2parser.ParseKey(txt)
@@ -46,5 +82,13 @@ func c05CheckKey(s string) {
 func VerifC05Key() {
 	n := nd.Choose("len", 1, nd.Param("N", 2))
 	s := nd.ASCII("s", n)
+	c05CheckKey(s)
+}
+
+// VerifC05KeyWord: letter-case variants of special words as key segments.
+func VerifC05KeyWord() {
+	words := []string{"null", "true", "false", "suspend", "label", "shape", "3d"}
+	w := words[nd.Choose("word", 0, len(words)-1)]
+	s := nd.CaseMask("case", w)
 	c05CheckKey(s)
 }
